@@ -1260,3 +1260,308 @@ Example C07_example_modes :
       /\ (forall mode, mode_usable mode RT_AAAA <-> mode <> OnlyV4)).
 Proof. exact (conj modes_example modes_example_eval). Qed.
 Print Assumptions C07_example_modes.
+
+(* ====================================================================== *)
+(* GLUELESS NAMESERVERS: the slow pass (lemmas: Resolver/RecursiveGlueless.v) *)
+(* ====================================================================== *)
+From RV Require Import Resolver.RecursiveGlueless.
+
+(* C07_correct_modes for delegation chains in which some cuts have nameserver hosts WITHOUT usable
+   glue ("out-of-bailiwick nameserver names").  At such a cut every candidate is skipped by the fast
+   pass (unless the cache happens to hold its address) and moved to next_candidate_hostnames; the slow
+   pass pops the first of them, h, and resolve_hostname_to_ip calls resolve_recursive_notimeout on
+   (h, A) (or AAAA, by the mode: the types of the mode in order until one returns records) with the
+   question under way on the stack.  That nested resolution is the same theorem for the question about
+   h -- a walk down h's own delegation chain from the root hints or the warm cache, whose cuts may
+   again be glueless --; its first address record is the address of a server of the child zone; the
+   query proceeds there.  The nested resolutions warm the cache, which stays consistent.
+
+   The glueless hosts are given by a PLAN: [planned h] says h is one; [plan h] = (the zones of h's
+   delegation chain below the root, the zone owning h); [hrank h] is a rank.  [plan_ok h] (decidable on
+   the universe, the hints, the plan; [serve_fits] inside plain_question aside) asks, for every planned h:
+     - for every record type t of the mode, the question (h, t) has the walk hypotheses of
+       C07_correct_modes along [plan h] (links with usable glue OR planned hosts), the last zone owns h
+       plainly (answering_zone), requests and replies fit 512 octets;
+     - the zone owning h holds an address record of h of SOME type of the mode; its records of h are
+       of class IN; the universe has no CNAME at h;
+     - WELL-FOUNDEDNESS: every nameserver host -- with glue or without -- of every zone on h's chain
+       has a rank strictly below h's: the resolution of h never needs h, nor a name whose resolution
+       is under way (the resolver would meet DuplicateQuestion and end in DeadEnd);
+     - hrank h < 30: the stack of questions under way is limited to 32 (RECURSION_LIMIT).
+   In [warm_questionm .. planned ..] and [consistentm .. planned ..] a host of a cut (of a cached NS
+   set) must have usable glue (be ready) OR be planned.
+
+   Then, from any cache consistent in that sense, for all sufficient fuel (the model's fuel bounds the
+   nesting of calls; more fuel never changes a finished computation: C07_fuel_monotone), [resolve]
+   returns the authoritative answer and leaves a consistent cache: from the cache (same data), or over
+   the network: exactly auth_answer; the log ([glog]) is the exchanges about q, in order one per zone
+   of [used] -- a subsequence of the chain ending with the owning zone zk -- each with a server whose
+   closest zone for the name is that zone, INTERLEAVED with the exchanges of the nested resolutions,
+   which are all about nameserver host names. *)
+Theorem C07_correct_glueless :
+  forall (sort_names : list dname -> list dname) (port : N) (u : universe) (hints : list rr) (hz : zone)
+         (mode : protocol_mode) (zroot : uzone)
+         (planned : dname -> Prop) (plan : dname -> list uzone * uzone) (hrank : dname -> nat)
+         (q : question) (rest : list uzone) (zk : uzone) (c : scache),
+  (forall l, Permutation (sort_names l) l) ->
+  universe_ns_ok u ->
+  zone_build root_domain None (hint_ops hints) = Ok hz ->
+  (forall h, planned h -> plan_ok u hints mode false zroot planned plan hrank h) ->
+  warm_questionm u hints mode false planned q zroot rest zk -> plain_question u q ->
+  consistentm u hints mode planned scache sc_get c ->
+  exists F, forall fuel, (F <= fuel)%nat ->
+    exists rrs c' ts',
+      resolve scache sc_get sc_insert_all sort_names (ModeRecursive mode) port (zones_insert [] hz)
+              (universe_oracle u []) fuel q (c, tstate_init)
+      = (Ok (NonAuthoritative rrs (aa_soa (auth_answer u q))), (c', ts'))
+      /\ consistentm u hints mode planned scache sc_get c'
+      /\ ((ts_log ts' = [] /\ c' = c /\ rrs = sc_get c (q_name q) (q_type q) /\ rrs <> []
+           /\ same_data rrs (aa_rrs (auth_answer u q)))
+          \/ (rrs = aa_rrs (auth_answer u q) /\ sc_get c (q_name q) (q_type q) = []
+              /\ exists used, subseq used (zroot :: rest) /\ (exists used0, used = used0 ++ [zk])
+                   /\ glog u port q used (ts_log ts'))).
+Proof.
+  intros sort_names port u hints hz mode zroot planned plan hrank q rest zk c Hs Hu Hb Hp Hw Hq Hc.
+  exact (glueless_correct sort_names Hs port u hints hz mode false zroot planned plan hrank q rest zk c Hu Hb Hp Hw Hq Hc).
+Qed.
+Print Assumptions C07_correct_glueless.
+
+(* the same for the real cache model at any fixed instant *)
+Theorem C07_correct_glueless_real_cache :
+  forall (now : N) (sort_names : list dname -> list dname) (port : N) (u : universe) (hints : list rr) (hz : zone)
+         (mode : protocol_mode) (zroot : uzone)
+         (planned : dname -> Prop) (plan : dname -> list uzone * uzone) (hrank : dname -> nat)
+         (q : question) (rest : list uzone) (zk : uzone) (c : rcache),
+  (forall l, Permutation (sort_names l) l) ->
+  universe_ns_ok u ->
+  zone_build root_domain None (hint_ops hints) = Ok hz ->
+  (forall h, planned h -> plan_ok u hints mode false zroot planned plan hrank h) ->
+  warm_questionm u hints mode false planned q zroot rest zk -> plain_question u q ->
+  consistentm u hints mode planned rcache (rc_get now) c ->
+  exists F, forall fuel, (F <= fuel)%nat ->
+    exists rrs c' ts',
+      resolve rcache (rc_get now) (rc_insert_all now) sort_names (ModeRecursive mode) port (zones_insert [] hz)
+              (universe_oracle u []) fuel q (c, tstate_init)
+      = (Ok (NonAuthoritative rrs (aa_soa (auth_answer u q))), (c', ts'))
+      /\ consistentm u hints mode planned rcache (rc_get now) c'
+      /\ ((ts_log ts' = [] /\ c' = c /\ rrs = rc_get now c (q_name q) (q_type q) /\ rrs <> []
+           /\ same_data rrs (aa_rrs (auth_answer u q)))
+          \/ (rrs = aa_rrs (auth_answer u q) /\ rc_get now c (q_name q) (q_type q) = []
+              /\ exists used, subseq used (zroot :: rest) /\ (exists used0, used = used0 ++ [zk])
+                   /\ glog u port q used (ts_log ts'))).
+Proof.
+  intros now sort_names port u hints hz mode zroot planned plan hrank q rest zk c Hs Hu Hb Hp Hw Hq Hc.
+  exact (glueless_correct_real_cache now sort_names Hs port u hints hz mode false zroot planned plan hrank q rest zk c Hu Hb Hp Hw Hq Hc).
+Qed.
+Print Assumptions C07_correct_glueless_real_cache.
+
+(* the model's fuel: a computation of resolve_recursive_notimeout (of the candidate loop) that
+   finished with a value finishes with the same value and state on any larger fuel -- for every cache,
+   oracle, mode, stack and question *)
+Theorem C07_fuel_monotone :
+  forall (cache : Type) (cache_get : cache -> dname -> N -> list rr) (cache_insert_all : cache -> list rr -> cache)
+         (sort_names : list dname -> list dname) (zs : zones) (o : oracle) (pmode : protocol_mode) (port : N)
+         (f f' : nat) (stack : list question) (q : question) (st : rstate cache) (v : rres) (st' : rstate cache),
+  (f <= f')%nat ->
+  resolve_recursive_notimeout cache cache_get cache_insert_all sort_names zs o pmode port f stack q st = (Val v, st') ->
+  resolve_recursive_notimeout cache cache_get cache_insert_all sort_names zs o pmode port f' stack q st = (Val v, st').
+Proof. exact rrn_fuel_mono. Qed.
+Print Assumptions C07_fuel_monotone.
+
+(* ---- the hypotheses are met by a worked universe (RecursiveGlueless.v, section 6): the depth-3 chain
+   . -> com. -> example.com. -> sub.example.com. extended by hosted.com., delegated from com. to
+   ns.hoster.net. WITHOUT glue, and by the branch . -> net. -> hoster.net. (glue-complete: ns.net.,
+   ns1.hoster.net.) whose zone hoster.net. holds ns.hoster.net. A 10.0.0.8, the server of hosted.com.;
+   consistent.  Plan: ns.hoster.net. is the one planned host, chain [net.; hoster.net.], rank 1, every
+   other name rank 0.  www.hosted.com. A from the empty cache, only-v4: the theorem's outcome for all
+   sufficient fuel; evaluated by vm_compute with fuel 20: the root and com. are asked about
+   www.hosted.com.; the nested resolution asks the root, net. (10.0.0.6) and hoster.net. (10.0.0.7)
+   about ns.hoster.net. A; then 10.0.0.8 answers www.hosted.com.; asked again: from the cache. ---- *)
+Example C07_example_glueless :
+  (exists F, forall fuel, (F <= fuel)%nat ->
+     outcomeg scache sc_get 53 g_universe c3_hints OnlyV4 g_root g_planned g_q [g_com; g_hosted] g_hosted sc_empty
+       (resolve scache sc_get sc_insert_all sort_names_ord (ModeRecursive OnlyV4) 53 (zones_insert [] c3_hz)
+                (universe_oracle g_universe []) fuel g_q (sc_empty, tstate_init)))
+  /\ (forall h, g_planned h -> plan_ok g_universe c3_hints OnlyV4 false g_root g_planned g_plan g_rank h)
+  /\ (let r := resolve scache sc_get sc_insert_all sort_names_ord (ModeRecursive OnlyV4) 53 (zones_insert [] c3_hz)
+                       (universe_oracle g_universe []) 20%nat g_q (sc_empty, tstate_init) in
+      let r' := resolve scache sc_get sc_insert_all sort_names_ord (ModeRecursive OnlyV4) 53 (zones_insert [] c3_hz)
+                        (universe_oracle g_universe []) 20%nat g_q (fst (snd r), tstate_init) in
+      fst r = Ok (NonAuthoritative [c3_rr g_n_www_hosted RT_A 300 (RD_A 3221225991)] None)
+      /\ map (fun e => (x_addr e, x_question e)) (ts_log (snd (snd r)))
+         = [((inl c3_ip0, 53), g_q); ((inl c3_ip1, 53), g_q);
+            ((inl c3_ip0, 53), g_qh); ((inl g_ip5, 53), g_qh); ((inl g_ip6, 53), g_qh);
+            ((inl g_ip7, 53), g_q)]
+      /\ fst r' = fst r /\ ts_log (snd (snd r')) = []
+      /\ consistentb g_universe = true).
+Proof. exact (conj glueless_example (conj g_plan_ok glueless_example_eval)). Qed.
+Print Assumptions C07_example_glueless.
+
+(* ====================================================================== *)
+(* SERVERS AUTHORITATIVE FOR SEVERAL ZONES OF ONE CHAIN                     *)
+(* (lemmas: Resolver/RecursiveMultiZone.v; the inductions of RecursiveModes.v *)
+(* and RecursiveGlueless.v carry the flag [multi])                          *)
+(* ====================================================================== *)
+From RV Require Import Resolver.RecursiveMultiZone.
+
+(* With [multi = true] the address clause of [warm_questionm] is WEAKENED ([lands]): every address
+   record of a nameserver host of the zone zi of the chain leads to a server whose closest zone for
+   the question name is zi OR A ZONE OF THE CHAIN BELOW zi (Universe.serve answers from the closest
+   zone the server holds).  The hops in between are skipped.  The result is unchanged -- the
+   authoritative answer, a consistent cache --; the log is one exchange about q per zone of [used],
+   a SUBSEQUENCE of the chain that ends with the owning zone zk (at most as long as the chain:
+   C07_multizone_log_shorter), each with a server whose closest zone for the name is that zone. *)
+Theorem C07_correct_multizone :
+  forall (sort_names : list dname -> list dname) (port : N) (u : universe) (hints : list rr) (hz : zone)
+         (mode : protocol_mode) (q : question) (zroot : uzone) (rest : list uzone) (zk : uzone) (c : scache) (fuel : nat),
+  (forall l, Permutation (sort_names l) l) ->
+  universe_ns_ok u ->
+  zone_build root_domain None (hint_ops hints) = Ok hz ->
+  warm_questionm u hints mode true (fun _ => False) q zroot rest zk -> plain_question u q ->
+  consistentm u hints mode (fun _ => False) scache sc_get c -> (length rest + 2 <= fuel)%nat ->
+  exists rrs c' ts',
+    resolve scache sc_get sc_insert_all sort_names (ModeRecursive mode) port (zones_insert [] hz)
+            (universe_oracle u []) fuel q (c, tstate_init)
+    = (Ok (NonAuthoritative rrs (aa_soa (auth_answer u q))), (c', ts'))
+    /\ consistentm u hints mode (fun _ => False) scache sc_get c'
+    /\ ((ts_log ts' = [] /\ c' = c /\ rrs = sc_get c (q_name q) (q_type q) /\ rrs <> []
+         /\ same_data rrs (aa_rrs (auth_answer u q)))
+        \/ (rrs = aa_rrs (auth_answer u q) /\ sc_get c (q_name q) (q_type q) = []
+            /\ exists used, subseq used (zroot :: rest) /\ (exists used0, used = used0 ++ [zk])
+                 /\ Forall2 (fun z e => exists a, query_toi port q a e /\ serves_owner u a z q) used (ts_log ts'))).
+Proof.
+  intros sort_names port u hints hz mode q zroot rest zk c fuel Hs Hu Hb Hw Hq Hc Hf.
+  destruct (modes_correct sort_names Hs port u hints hz mode true q zroot rest zk c fuel Hu Hb Hw Hq Hc Hf)
+    as (rrs & c' & ts' & E & HC & Hcases).
+  exists rrs, c', ts'. split; [exact E|]. split; [exact HC|].
+  destruct Hcases as [H|(H1 & H2 & used & H3 & H4 & _ & H5)]; [left; exact H|right].
+  split; [exact H1|]. split; [exact H2|]. exists used. auto.
+Qed.
+Print Assumptions C07_correct_multizone.
+
+(* the same for the real cache model at any fixed instant *)
+Theorem C07_correct_multizone_real_cache :
+  forall (now : N) (sort_names : list dname -> list dname) (port : N) (u : universe) (hints : list rr) (hz : zone)
+         (mode : protocol_mode) (q : question) (zroot : uzone) (rest : list uzone) (zk : uzone) (c : rcache) (fuel : nat),
+  (forall l, Permutation (sort_names l) l) ->
+  universe_ns_ok u ->
+  zone_build root_domain None (hint_ops hints) = Ok hz ->
+  warm_questionm u hints mode true (fun _ => False) q zroot rest zk -> plain_question u q ->
+  consistentm u hints mode (fun _ => False) rcache (rc_get now) c -> (length rest + 2 <= fuel)%nat ->
+  exists rrs c' ts',
+    resolve rcache (rc_get now) (rc_insert_all now) sort_names (ModeRecursive mode) port (zones_insert [] hz)
+            (universe_oracle u []) fuel q (c, tstate_init)
+    = (Ok (NonAuthoritative rrs (aa_soa (auth_answer u q))), (c', ts'))
+    /\ consistentm u hints mode (fun _ => False) rcache (rc_get now) c'
+    /\ ((ts_log ts' = [] /\ c' = c /\ rrs = rc_get now c (q_name q) (q_type q) /\ rrs <> []
+         /\ same_data rrs (aa_rrs (auth_answer u q)))
+        \/ (rrs = aa_rrs (auth_answer u q) /\ rc_get now c (q_name q) (q_type q) = []
+            /\ exists used, subseq used (zroot :: rest) /\ (exists used0, used = used0 ++ [zk])
+                 /\ Forall2 (fun z e => exists a, query_toi port q a e /\ serves_owner u a z q) used (ts_log ts'))).
+Proof.
+  intros now sort_names port u hints hz mode q zroot rest zk c fuel Hs Hu Hb Hw Hq Hc Hf.
+  destruct (modes_correct_real_cache now sort_names Hs port u hints hz mode true q zroot rest zk c fuel Hu Hb Hw Hq Hc Hf)
+    as (rrs & c' & ts' & E & HC & Hcases).
+  exists rrs, c', ts'. split; [exact E|]. split; [exact HC|].
+  destruct Hcases as [H|(H1 & H2 & used & H3 & H4 & _ & H5)]; [left; exact H|right].
+  split; [exact H1|]. split; [exact H2|]. exists used. auto.
+Qed.
+Print Assumptions C07_correct_multizone_real_cache.
+
+(* ... and with glueless cuts as well: C07_correct_glueless under the weakened address clause, in the
+   question's chain and in the chains of the planned hosts *)
+Theorem C07_correct_glueless_multizone :
+  forall (sort_names : list dname -> list dname) (port : N) (u : universe) (hints : list rr) (hz : zone)
+         (mode : protocol_mode) (zroot : uzone)
+         (planned : dname -> Prop) (plan : dname -> list uzone * uzone) (hrank : dname -> nat)
+         (q : question) (rest : list uzone) (zk : uzone),
+  (forall l, Permutation (sort_names l) l) ->
+  universe_ns_ok u ->
+  zone_build root_domain None (hint_ops hints) = Ok hz ->
+  (forall h, planned h -> plan_ok u hints mode true zroot planned plan hrank h) ->
+  warm_questionm u hints mode true planned q zroot rest zk -> plain_question u q ->
+  (forall (c : scache), consistentm u hints mode planned scache sc_get c ->
+     exists F, forall fuel, (F <= fuel)%nat ->
+       outcomeg scache sc_get port u hints mode zroot planned q rest zk c
+         (resolve scache sc_get sc_insert_all sort_names (ModeRecursive mode) port (zones_insert [] hz)
+                  (universe_oracle u []) fuel q (c, tstate_init)))
+  /\ (forall now (c : rcache), consistentm u hints mode planned rcache (rc_get now) c ->
+     exists F, forall fuel, (F <= fuel)%nat ->
+       outcomeg rcache (rc_get now) port u hints mode zroot planned q rest zk c
+         (resolve rcache (rc_get now) (rc_insert_all now) sort_names (ModeRecursive mode) port (zones_insert [] hz)
+                  (universe_oracle u []) fuel q (c, tstate_init))).
+Proof.
+  intros sort_names port u hints hz mode zroot planned plan hrank q rest zk Hs Hu Hb Hp Hw Hq. split.
+  - intros c Hc. exact (glueless_correct sort_names Hs port u hints hz mode true zroot planned plan hrank q rest zk c Hu Hb Hp Hw Hq Hc).
+  - intros now c Hc. exact (glueless_correct_real_cache now sort_names Hs port u hints hz mode true zroot planned plan hrank q rest zk c Hu Hb Hp Hw Hq Hc).
+Qed.
+Print Assumptions C07_correct_glueless_multizone.
+
+(* the weakened hypotheses follow from the strict ones of C07_correct_modes / C07_correct_glueless (so
+   the theorems above hold for those universes too, with the log stated as a subsequence) *)
+Theorem C07_multizone_weakens :
+  forall u hints mode (G : dname -> Prop) q zroot rest zk,
+  warm_questionm u hints mode false G q zroot rest zk -> warm_questionm u hints mode true G q zroot rest zk.
+Proof. exact warm_questionm_weaken. Qed.
+Print Assumptions C07_multizone_weakens.
+
+(* the log gets shorter: a subsequence of the chain is at most as long as the chain, and the log
+   has one exchange per zone of it *)
+Theorem C07_multizone_log_shorter :
+  forall u port q (chain used : list uzone) es,
+  subseq used chain -> Forall2 (fun z e => exists a, query_toi port q a e /\ serves_owner u a z q) used es ->
+  (length es <= length chain)%nat.
+Proof.
+  intros u port q chain used es Hs Hl. rewrite (chain_logm_length u port q used es Hl). exact (subseq_length used chain Hs).
+Qed.
+Print Assumptions C07_multizone_log_shorter.
+
+(* ---- the hypotheses are met by a worked universe (RecursiveMultiZone.v, section 2): the depth-3 chain
+   in which the server 10.0.0.2 of com. ALSO holds example.com. (example.com. is served by 10.0.0.2 and
+   10.0.0.3); consistent.  The strict address clause fails (10.0.0.2's closest zone for
+   www.sub.example.com. is example.com., not com.), the weakened one holds.  Evaluated by vm_compute:
+   three exchanges instead of four -- 10.0.0.1, then 10.0.0.2, asked as a server of com., gives
+   example.com.'s referral to sub.example.com., then 10.0.0.4 --, the same answer; the NS set of
+   example.com. is never cached, that of sub.example.com. is. ---- *)
+Example C07_example_multizone :
+  (outcomem scache sc_get 53 z3_universe c3_hints OnlyV4 true c3_q c3_root [c3_com; c3_ex; c3_sub] c3_sub sc_empty
+     (resolve scache sc_get sc_insert_all sort_names_ord (ModeRecursive OnlyV4) 53 (zones_insert [] c3_hz)
+              (universe_oracle z3_universe []) 5%nat c3_q (sc_empty, tstate_init))
+   /\ ~ serves_owner z3_universe (inl c3_ip1) c3_com c3_q)
+  /\ (let r := resolve scache sc_get sc_insert_all sort_names_ord (ModeRecursive OnlyV4) 53 (zones_insert [] c3_hz)
+                       (universe_oracle z3_universe []) 5%nat c3_q (sc_empty, tstate_init) in
+      fst r = Ok (NonAuthoritative [c3_rr c3_n_www RT_A 300 (RD_A 3221225985)] None)
+      /\ map x_addr (ts_log (snd (snd r))) = [(inl c3_ip0, 53); (inl c3_ip1, 53); (inl c3_ip3, 53)]
+      /\ sc_get (fst (snd r)) c3_n_ex RT_NS = [] /\ sc_get (fst (snd r)) c3_n_sub RT_NS <> []
+      /\ consistentb z3_universe = true).
+Proof. exact (conj multizone_example multizone_example_eval). Qed.
+Print Assumptions C07_example_multizone.
+
+(* C07_correct_partial -- where the whole statement stands after ALL the theorems of this file.
+   PROVED end to end (model of the resolver against Universe.serve through the wire codec, fault-free
+   universe oracle, root hints as the only local zone, SimpleCache and the real cache model):
+     any depth, any cache consistent with the universe, sequences of questions, alias chains crossing
+     zones (only-v4, glue-complete: C07_correct_chain / _warm / _sequence / _alias), and for plain
+     questions (type other than NS / CNAME / ANY, name not a nameserver host, no alias at the name):
+     ALL FOUR PROTOCOL MODES with A and AAAA glue and hints (C07_correct_modes, _chain_modes),
+     GLUELESS cuts resolved by the slow pass with nested resolutions under a rank on nameserver host
+     names (C07_correct_glueless), SERVERS HOLDING SEVERAL ZONES of the chain (C07_correct_multizone,
+     C07_correct_glueless_multizone), each from any consistent cache, ending in a consistent cache.
+   STILL MISSING for "every consistent universe, every question, every mode" (covered by the
+   differential stream of vlib/p_c07.py only):
+     (1) alias chains and sequences of questions are proved for only-v4 glue-complete chains only:
+         C07_correct_alias / C07_sequence restated over [consistentm] / [warm_questionm] (the nested
+         induction of RecursiveAlias.v over the new walk lemmas; a sequence theorem over glog);
+     (2) the glue shortcut F11 on the way of a host question: a planned host that ALSO has glue in a
+         referral met on its own chain (the typical ns.hoster.net. serving hoster.net. itself) -- wlinkm
+         asks that the question name owns no glue or data in the parent;
+     (3) a planned host all of whose address types are absent (the candidate is dropped and the next
+         one tried), and candidates that fail (faults: dropped, truncated, wrong-id replies; DeadEnd on
+         the first candidate without a usable reply);
+     (4) from a WARM cache: questions for NS and questions about a nameserver host asked by the
+         client (cache completeness is not claimed at nameserver hosts);
+     (5) the per-question hypotheses (warm_questionm, plan_ok) derived from one decidable
+         well-formedness predicate on universes (consistentb + tree shape + the rank), instead of being
+         stated question by question;
+     (6) for glueless chains the fuel bound is existential (exists F, forall fuel >= F) and, without
+         [multi], the log is stated as a subsequence rather than a suffix of the chain. *)
